@@ -6,6 +6,23 @@ props = [json.loads(l) for l in open(os.path.join(V, 'properties.jsonl'))]
 
 # id -> (technique, level text, level note, design ref)
 CLAIMED = {
+ 'C11': ("property-based generation x {unchanged, inserted instructions, GC} (proptest), spy CustomSection + independently derived true offset map",
+         "A spy custom section records the CodeTransform; every (input offset, output offset) pair must lie in the true instruction map derived from independent decodes of both binaries and the verified bijection, no pair may carry the default location, every function range must equal the emitted code entry of the function's image, and code_section_start must be the output's code-section content start. Exploration over sampled modules incl. function counts around 127/128.",
+         "Pairs that fall into dead code walrus happens to retain cannot be judged and are counted separately.",
+         "DESIGN.md §4 C11"),
+ 'C13': ("property-based generation of name sections (proptest), bijection-based name transport oracle",
+         "Names of every kind are transported through the independently verified renumbering bijection (plain, synthetic-name config, GC): every input name on a surviving entity must be on its image, every output name must come from its preimage, with exactly the allowances of the statement.",
+         "Name section placed after the data section; GC-mode ambiguity between content-identical entities resolved in walrus's favour.",
+         "DESIGN.md §4 C13"),
+ 'C14': ("exhaustive enumeration of the 2^5 switch combinations per generated input (proptest for inputs), metamorphic one-switch-at-a-time oracle",
+         "For each input all 32 configurations are run; outputs differing in one switch must differ exactly as documented (name / producers section removed and nothing else, .debug_* present iff DWARF on and present in the input, code-transform and only-stable flags neutral), producers content is preserved with exactly one walrus entry after 1-3 round trips, and an on_parse counter is 1 after Ok and 0 after Err (valid and mutated inputs).",
+         "DWARF inputs are synthesized well-formed DWARF; arbitrary .debug_* bytes are only used with DWARF generation off.",
+         "DESIGN.md §4 C14"),
+ 'C19': ("property-based generation (proptest), observation through on_parse and a spy CustomSection, decode + bijection oracle",
+         "Inside on_parse every index of every index space is resolved to an id and checked against the independent decode of the input (content, import names, body range, local types and parameter positions; out-of-range must fail); inside CustomSection::data every live id's emitted index must be the image of its input index under the independently verified bijection; plain and GC modes.",
+         "LocalFunction::original_range identifies parsed bodies.",
+         "DESIGN.md §4 C19"),
+
  'C07': ("property-based generation of modules with garbage (proptest), independent reachability analysis on the emitted binary + byte-equality for idempotence",
          "After parse>gc>emit, a reachability analysis written from the property text (roots: exports, start, active data, active elements of imported tables, declared elements) must cover every entity and type of the output, with the single documented memory residue; gc twice and gc of the gc output must reproduce the same bytes.",
          "Raw custom sections add no roots; wasmparser decodes the output.",
